@@ -1,11 +1,12 @@
 #!/bin/bash
 # Determinism self-test (DESIGN.md 8.1 / 10.5).
-# For one check: the same `runs` run indices (same VERIF_SEED) are executed by 30 separate OS
+# For one check: the same `runs` run indices (same VERIF_SEED) are executed by 96 separate OS
 # processes - for each worker count NumCPU in {1,2,4} (the swarm knob that is recorded in every
-# replay file, so it is held fixed inside a comparison): 6 processes with GOMAXPROCS=1 (the
-# registered configuration) pinned to different physical CPUs, plus 2 each with GOMAXPROCS=4 and
-# GOMAXPROCS=16 (informational: the registered commands never use them) - all started together so
-# that they also compete for the machine. Per-run event-log hashes and tape lengths are compared.
+# replay file, so it is held fixed inside a comparison) one round of 32 concurrent processes on
+# the 16 cores (so that they compete for the machine; wall-clock dependence shows under load):
+# 24 with GOMAXPROCS=1 (the registered configuration) pinned to different physical CPUs, plus 4
+# each with GOMAXPROCS=4 and GOMAXPROCS=16 (informational: the registered commands never use
+# them). Per-run event-log hashes, tape lengths and violation classes are compared.
 # usage: tools/determinism.sh <ID> [runs] [seed]
 # exit 0 = the registered configuration (GOMAXPROCS=1) never diverged; 1 = it diverged.
 id=$1; runs=${2:-40}; seed=${3:-11}
@@ -28,11 +29,11 @@ launch() { # ncpu gmp tag
     taskset -c $list /verif/.build/$lc.test -test.run '^TestCheck$' -test.timeout 0 >/dev/null 2>&1 ) &
 }
 for ncpu in 1 2 4; do
-  for rep in a b c d e f; do launch $ncpu 1 n$ncpu-g1-$rep; done
-  for rep in a b; do launch $ncpu 4 n$ncpu-g4-$rep; done
-  for rep in a b; do launch $ncpu 16 n$ncpu-g16-$rep; done
+  for rep in a b c d e f g h i j k l m n o p q r s t u v w x; do launch $ncpu 1 n$ncpu-g1-$rep; done
+  for rep in a b c d; do launch $ncpu 4 n$ncpu-g4-$rep; done
+  for rep in a b c d; do launch $ncpu 16 n$ncpu-g16-$rep; done
+  wait
 done
-wait
 bad1=0; badN=0; lines=0
 for ncpu in 1 2 4; do
   ref=$d/h-n$ncpu-g1-a.txt
@@ -45,6 +46,6 @@ for ncpu in 1 2 4; do
     if ! cmp -s $ref $f; then badN=$((badN+1)); echo "differs (GOMAXPROCS>1, informational): $(basename $f): $(diff $ref $f | grep -c '^<') of $(wc -l < $ref) runs"; fi
   done
 done
-echo "DET $id seed=$seed: $lines run-hashes compared across 30 processes; GOMAXPROCS=1 diverging processes: $bad1 of 18; GOMAXPROCS 4/16 differing processes: $badN of 12"
+echo "DET $id seed=$seed: $lines run-hashes compared across 96 processes; GOMAXPROCS=1 diverging processes: $bad1 of 72; GOMAXPROCS 4/16 differing processes: $badN of 24"
 rm -rf $d
 [ $bad1 -eq 0 ]
